@@ -484,3 +484,28 @@ def graph_class(nodes):
         "unnamed_cycle": has_cycle_through(nodes, lambda n: n.t in ("array", "map", "union")),
         "record_cycle": has_cycle_through(nodes, lambda n: n.t == "record"),
     }
+
+def leaf_kind_schemas():
+    """one single-node schema per kind of leaf the frozen schema distinguishes (every primitive, every logical type over each
+    of its base types, fixed / decimal-over-fixed at several sizes, enums): [(label, nodes)]"""
+    N = Node
+    out = [(p, [N(p)]) for p in PRIMS]
+    for lt in ("date", "time-millis"):
+        out.append((lt, [N("int", lt=lt)]))
+    for lt in ("time-micros", "timestamp-millis", "timestamp-micros"):
+        out.append((lt, [N("long", lt=lt)]))
+    out.append(("uuid", [N("string", lt="uuid")]))
+    out.append(("big-decimal", [N("bytes", lt="big-decimal")]))
+    for sc, pr in ((0, 5), (2, 20), (5, 28)):
+        out.append(("decimal-bytes-%d" % sc, [N("bytes", lt=("decimal", sc, pr))]))
+    for sz in (1, 2, 3, 4, 8, 12, 16):
+        out.append(("decimal-fixed-%d" % sz, [N("fixed", name="DF%d" % sz, size=sz, lt=("decimal", sz % 3, min(2 * sz, 28)))]))
+    for sz in (0, 1, 2, 5, 12, 16):
+        out.append(("fixed-%d" % sz, [N("fixed", name="Fx%d" % sz, size=sz)]))
+    out.append(("duration", [N("fixed", name="Du", size=12, lt="duration")]))
+    out.append(("enum-1", [N("enum", name="E1", symbols=["A"])]))
+    out.append(("enum-4", [N("enum", name="ns.E4", symbols=["A", "B", "C", "D"])]))
+    for base in ("bytes", "string", "long"):
+        out.append(("unknown-logical-" + base, [N(base, lt=("unknown", "custom"))]))
+    out.append(("unknown-logical-fixed", [N("fixed", name="Fu", size=3, lt=("unknown", "custom"))]))
+    return out
